@@ -54,6 +54,18 @@ Proof.
       |rewrite run_array_none by (try congruence; auto); discriminate ..].
 Qed.
 
+(* the regenerated program computes exactly the specified closed form *)
+Theorem run_eq_ref_lemma mul inp lo hi :
+  run mul inp get_threshold_prog lo hi = ref_run mul inp lo hi.
+Proof.
+  destruct inp as [md cf rg rl lb]. unfold ref_run. destruct md; cbn [in_mod].
+  - apply run_global_eq.
+  - destruct lo as [lo|], hi as [hi|];
+      [apply run_array_eq; congruence|apply run_array_none; (congruence || auto) ..].
+  - destruct lo as [lo|], hi as [hi|];
+      [apply run_array_eq; congruence|apply run_array_none; (congruence || auto) ..].
+Qed.
+
 (* ------------------------------------------------------------------ order reasoning *)
 
 Lemma clamp_opt_in_range lo hi x : range_ok lo hi -> in_range lo hi (clamp_opt lo hi x).
